@@ -104,15 +104,17 @@ def nwk_of(D, with_internal=True):
         return gen.newick(D.T, with_internal) + ';'
     def rec(t, root=False):
         s_ = t[0] if not t[1] else '(' + ','.join(rec(k) for k in t[1]) + ')' + (t[0] if with_internal else '')
-        return s_ if root else s_ + ':' + ('0.1' if len(t[0]) % 2 else '2.5')
+        # (zero-length branches included: distance-based shortcuts must not confuse a genome with its ancestor)
+        return s_ if root else s_ + ':' + ('0.1', '2.5', '0', '0.0')[sum(map(ord, t[0])) % 4]
     return rec(D.T, True) + ';'
 
 def load_py(D, groups=None, species=None, **kw):
     """load the dataset with pyham (in-memory string transport); returns the Ham object"""
-    xml = gen.orthoxml(species if species is not None else D.species, groups if groups is not None else D.groups)
+    xml = gen.orthoxml(species if species is not None else D.species, groups if groups is not None else D.groups,
+                       dbsplit=bool(D.meta.get('dbsplit')))
     kw.setdefault('use_internal_name', D.naming == 'own')
     phylo_dir = kw.pop('phyloxml_dir', None)
-    if phylo_dir:
+    if phylo_dir and D.T[0] != '':      # (a PhyloXML clade cannot carry an empty name; unlabelled roots go the Newick way)
         # the same tree supplied as a PhyloXML file (names in <taxonomy><scientific_name>)
         path = os.path.join(phylo_dir, 'tree.phyloxml')
         with open(path, 'w') as f:
@@ -177,7 +179,7 @@ def write_replay(prop, seed, idx, payload):
 
 def dataset_payload(D, groups=None, species=None):
     return dict(newick=nwk_of(D), naming=D.naming,
-                orthoxml=gen.orthoxml(species if species is not None else D.species, groups if groups is not None else D.groups),
+                orthoxml=gen.orthoxml(species if species is not None else D.species, groups if groups is not None else D.groups, dbsplit=bool(D.meta.get('dbsplit'))),
                 sexp=gen.sx_case('replay', D.T, D.naming, species if species is not None else D.species,
                                  groups if groups is not None else D.groups,
                                  histories=[(p, l) for p, l, _ in D.families]))
